@@ -248,6 +248,24 @@ def gen_hist(rng, big=False, sched=None):
     return add_failures(rng, L, big=True)[0]
 
 
+def gen_wide(rng):
+    """A WIDE history: in <- mid <- f0..f(nf-1) <- top with nf >= 600, so that ONE build stores more than 600 results
+    (anything that commits "every so many results" shows up as a second commit point inside the build)."""
+    nf = rng.randint(600, 640)
+    top = nf + 2
+    L = ["rule 0 sig=0 obs=1", "rule 1 sig=1 obs=0 req=0"]
+    for i in range(2, nf + 2):
+        L.append("rule %d sig=%d obs=0 req=1" % (i, i % 4))
+    L.append("rule %d sig=2 obs=0 req=%s" % (top, ",".join(str(i) for i in range(2, nf + 2))))
+    L += ["set 0 1", "build %d" % top, "set 0 2", "build %d" % top, "set 0 3", "build %d" % rng.choice([top, nf, 1])]
+    return L
+
+
+def commit_points(calls):
+    """calls of the log that end a rollback-journal transaction (the journal is removed / truncated / renamed)"""
+    return [int(c[0]) for c in calls if c[2] == "journal" and c[1] in ("unlink", "unlinkat", "ftruncate", "rename")]
+
+
 def is_cancel_line(l):
     return l.startswith("build ") and " cancel=" in l
 
@@ -583,6 +601,15 @@ class Target:
                                model_post=m_post[:1500], observed_post=state_str(self.post)[:1500]),
                           found_input=False, broken="correspondence: Engine/Crash.v trace_of_build / apply_committed vs SQLiteBuildDB")
             return False
+        # exactly ONE commit point per build: the call log of the uncrashed run must not remove the journal more often than
+        # once per build (+ once for the creation of the schema when the file is new)
+        cps = commit_points(self.calls)
+        expected = 1 + (0 if self.pre["schema"] else 1)
+        if len(cps) > expected:
+            chk.violation("multiple-commit-points", "the uncrashed run of %s ends %d journal transactions (at calls %s) where one build%s allows %d: results become durable before the build's epoch does" % (
+                self.hist[self.pos], len(cps), cps[:8], "" if self.pre["schema"] else " on a new file", expected),
+                dict(self.replay_base(), calls=[" ".join(c) for c in self.calls if c[2] == "journal" and c[1] != "pwrite"][:60]),
+                found_input=False, broken="single transaction per build (SQLiteBuildDB::buildStarted / buildComplete)")
         self.commit_at = None        # first N observed in post state
         self.last_pre = 0            # largest N observed in pre state
         self.ok = True
@@ -751,6 +778,10 @@ class WholeTarget:
         for b in builds:
             self.traces.append(ops_of_build(self.dumps[-1], b))
             self.dumps.append(list(b["db"]))
+        cps = commit_points(self.calls)
+        if len(cps) > len(builds) + 1:
+            chk.violation("multiple-commit-points", "the uncrashed whole-history process ends %d journal transactions for %d builds + schema creation" % (len(cps), len(builds)),
+                          dict(self.replay_base(), commit_calls=cps[:40]), found_input=False, broken="single transaction per build (SQLiteBuildDB::buildStarted / buildComplete)")
         self.trace_all = [o for t in self.traces for o in t]
         if self.model.ask("wf " + ";".join(self.trace_all)) != "1":
             chk.violation("model-correspondence", "the Coq model rejects the operation trace rebuilt from an UNCRASHED history", dict(self.replay_base(), trace=";".join(self.trace_all)[:4000]),
@@ -912,9 +943,10 @@ def run(chk):
 
     n_small = chk.n(7, 30)
     n_big = chk.n(1, 4)
-    budget = chk.n(900, 10**9)          # kill points in the quick tier
+    budget = chk.n(480, 10**9)          # kill points in the quick tier
     hists = [("big%d" % i, gen_hist(rng, big=True, sched=sched if i % 2 else None)) for i in range(n_big)]
     hists += [("h%d" % i, gen_hist(rng, sched=sched if i % 2 else None)) for i in range(n_small)]
+    wide = [("wide%d" % i, gen_wide(rng)) for i in range(chk.n(1, 2))]
     targets = []
     for name, hist in hists:
         nb = len(build_indices(hist))
@@ -928,7 +960,10 @@ def run(chk):
             bis = list(range(nb))
         for bi in bis:
             targets.append(Target(chk, drv, model, hist, bi, "%s_b%d" % (name, bi)))
-    chained = sum(chain_check(chk, drv, hist, name + "_chain") for name, hist in hists)
+    for name, hist in wide:
+        for bi in ([1] if chk.quick() else [0, 1, 2]):
+            targets.append(Target(chk, drv, model, hist, bi, "%s_b%d" % (name, bi)))
+    chained = sum(chain_check(chk, drv, hist, name + "_chain") for name, hist in hists + wide)
     usable = []
     for t in targets:
         if t.prepare():
@@ -960,11 +995,19 @@ def run(chk):
             chk.violation("no-sync-barrier", "uncrashed run: %s (write-ahead ordering, needed once the machine - not only the process - can die)" % what,
                           dict(t.replay_base(), calls=[" ".join(c) for c in t.calls][:80]), found_input=False, broken="durability protocol of the SQLite connection (synchronous / journal_mode)")
         allN = list(range(1, t.total + 2))
-        if chk.quick() and len(allN) > share:
+        if t.name.startswith("wide"):
+            stats["wide_results_in_one_build"] = max(stats.get("wide_results_in_one_build", 0), sum(1 for o in t.trace_i if o.startswith("R")))
+        if (chk.quick() or t.name.startswith("wide")) and len(allN) > share:
+            # wide builds are never enumerated exhaustively: kill points come from the call log (around every journal removal and
+            # every sync seen mid-build) plus a random sample
+            if t.name.startswith("wide"):
+                share_t = chk.n(34, 120)
+            else:
+                share_t = share
             b = t.boundaries()
             rest = [n for n in allN if n not in set(b)]
             rng.shuffle(rest)
-            pick = sorted(set(b[:share - 2] + rest[:max(2, share - len(b))]))
+            pick = sorted(set(b[:share_t - 2] + rest[:max(2, share_t - len(b))]))
         else:
             pick = allN
         crng = __import__("random").Random(rng.getrandbits(32))
@@ -984,7 +1027,7 @@ def run(chk):
     # the same for whole histories run in one process
     wstats = dict(histories=0, kill_points=0, total_calls=0)
     wh = hists[:chk.n(3, 16)]
-    wshare = chk.n(40, 10**9)
+    wshare = chk.n(30, 10**9)
     for name, hist in wh:
         t = WholeTarget(chk, drv, model, hist, name + "_whole")
         if not t.prepare():
@@ -1026,7 +1069,7 @@ def run(chk):
     return chk.finish(level="proof",
                       rule="generated engine histories over a SQLite database (rule DAGs with requests/single-use/must-follow/branching/discovered inputs, external mutations incl. flip-flops, "
                            "restarts, signature edits; sync/deferred/mixed completion schedules; plus 60-76-rule histories with 12-40 dependencies per rule so that one commit spans many pages); "
-                           "a case = (history, killed build, N) with the process killed before the N-th system call on build.db/-journal/-wal; non-trivial = the kill was delivered and the "
+                           "one WIDE history per run whose build stores 600+ results (kill points chosen from the call log); a case = (history, killed build, N) with the process killed before the N-th system call on build.db/-journal/-wal; non-trivial = the kill was delivered and the "
                            "killed build changes the database; distinct by (target, N)",
                       trusted=["hand-written model coq/Engine/Crash.v tied by correspondence (trace rebuilt from the uncrashed run's dumps; recover/wf/db_inv_b evaluated by the extracted model on every kill point)",
                                "harness/cpp/engine_driver.cpp, harness/cpp/crash_shim.c, Python sqlite3 as the independent reader",
